@@ -219,6 +219,11 @@ func parseEdit(toks []string) manifest.Edit {
 type image struct {
 	files map[string][]byte
 	acked int
+	// durability ghost at this crash point (see lean/NoKVModel/Manifest/Sync.lean)
+	durable   int            // edits acknowledged as durable
+	syncedLen map[string]int // manifest name -> bytes covered by an fsync
+	srep      map[string]int // manifest name -> edits those bytes stand for
+	curSynced bool           // the name in CURRENT was fsynced before the rename
 }
 
 type runner struct {
@@ -237,6 +242,65 @@ type runner struct {
 	thr       int64
 	sync      bool
 	tmpDirs   []string
+	// durability ghost
+	syncedLen map[string]int
+	srep      map[string]int
+	curSynced bool
+	tmpSynced bool
+	durable   int
+	inflight  int
+	edits     []manifest.Edit
+}
+
+func copyMap(m map[string]int) map[string]int {
+	out := make(map[string]int, len(m))
+	for k, v := range m {
+		out[k] = v
+	}
+	return out
+}
+
+func classToName(cls string) string {
+	n, err := strconv.ParseUint(strings.TrimPrefix(cls, "M"), 10, 64)
+	if err != nil {
+		return ""
+	}
+	return fmt.Sprintf("MANIFEST-%06d", n)
+}
+
+// applyGhost: the effect of a COMPLETED file-system call on the durability ghost; files = the
+// directory right after it
+func (r *runner) applyGhost(op string, files map[string][]byte) {
+	i := strings.IndexByte(op, ':')
+	kind, cls := op[:i], op[i+1:]
+	switch {
+	case kind == "fs" && strings.HasPrefix(cls, "M"):
+		name := classToName(cls)
+		r.syncedLen[name] = len(files[name])
+		r.srep[name] = r.nEdits + r.inflight
+	case kind == "of" && strings.HasPrefix(cls, "M"):
+		name := classToName(cls)
+		if len(files[name]) == 0 {
+			r.syncedLen[name], r.srep[name] = 0, 0
+		}
+	case kind == "rm" && strings.HasPrefix(cls, "M"):
+		name := classToName(cls)
+		delete(r.syncedLen, name)
+		delete(r.srep, name)
+	case (kind == "wf" || kind == "fw") && cls == "T":
+		r.tmpSynced = false
+	case kind == "fs" && cls == "T":
+		r.tmpSynced = true
+	case kind == "rn" && cls == "T>C":
+		r.curSynced = r.tmpSynced
+		r.tmpSynced = false
+	case kind == "wf" && cls == "C":
+		r.curSynced = false
+	}
+}
+
+func (r *runner) imageNow(files map[string][]byte) image {
+	return image{files: files, acked: r.nEdits, durable: r.durable, syncedLen: copyMap(r.syncedLen), srep: copyMap(r.srep), curSynced: r.curSynced}
 }
 
 func pathClass(dir, p string) string {
@@ -289,8 +353,12 @@ func (r *runner) hook(op vfs.Op, path string) error {
 	if !ok {
 		s = string(op)
 	}
+	files := r.snapshot()
+	if n := len(r.trace); n > 0 {
+		r.applyGhost(r.trace[n-1], files)
+	}
 	r.trace = append(r.trace, s+":"+pathClass(r.dir, path))
-	r.callImgs = append(r.callImgs, image{files: r.snapshot(), acked: r.nEdits})
+	r.callImgs = append(r.callImgs, r.imageNow(files))
 	return nil
 }
 
@@ -345,6 +413,8 @@ func (r *runner) open(thr int64, sync bool) {
 	r.shadow.SetRewriteThreshold(0)
 	r.shadow.SetSync(false)
 	r.dumps = []string{dump(r.shadow.Current())}
+	r.syncedLen, r.srep = map[string]int{}, map[string]int{}
+	r.curSynced, r.tmpSynced, r.durable = true, false, 0
 }
 
 // records of a byte string of whole frames: (start, payload length)
@@ -372,6 +442,14 @@ func (r *runner) call(f func() error) (string, error) {
 	err := f()
 	r.recording = false
 	after := r.snapshot()
+	if n := len(r.trace); n > 0 {
+		r.applyGhost(r.trace[n-1], after)
+	}
+	if r.curSynced && len(r.trace) > 0 { // a call that touched nothing (LogRaftTruncate no-op) is no call in the model
+		if s := r.srep[string(after["CURRENT"])]; s > r.durable {
+			r.durable = s
+		}
+	}
 	for k, im := range r.callImgs {
 		r.images = append(r.images, im)
 		// torn variants: a file_write that appends whole records to the manifest CURRENT names
@@ -418,8 +496,148 @@ func (r *runner) logShadow(edits ...manifest.Edit) {
 			panic(err)
 		}
 		r.dumps = append(r.dumps, dump(r.shadow.Current()))
+		r.edits = append(r.edits, e)
 		r.nEdits++
 	}
+	r.inflight = 0
+}
+
+// lossVariants: what a crash at this point may leave when bytes written since the last fsync of
+// the manifest CURRENT names can be lost (same order as Manifest.lossVariants in Lean): every
+// record boundary at or after the synced point with the 3 torn shapes of the next record, then
+// "nothing lost"; and, if the name in CURRENT was never fsynced, CURRENT short of one byte.
+func lossVariants(im image) []map[string][]byte {
+	name := string(im.files["CURRENT"])
+	data, ok := im.files[name]
+	if !ok {
+		return []map[string][]byte{im.files}
+	}
+	with := func(k string, v []byte) map[string][]byte {
+		files := map[string][]byte{}
+		for n, d := range im.files {
+			files[n] = d
+		}
+		files[k] = v
+		return files
+	}
+	S := im.syncedLen[name]
+	if S > len(data) {
+		S = len(data)
+	}
+	var out []map[string][]byte
+	for _, x := range frames(data[S:]) {
+		start := S + x[0]
+		for _, c := range []int{start, start + 2, start + 4, start + 4 + x[1]/2} {
+			out = append(out, with(name, append([]byte(nil), data[:c]...)))
+		}
+	}
+	out = append(out, im.files)
+	if !im.curSynced && len(name) > 0 {
+		out = append(out, with("CURRENT", []byte(name[:len(name)-1])))
+	}
+	return out
+}
+
+func (r *runner) allImages() []image {
+	return append(append([]image(nil), r.images...), r.imageNow(r.snapshot()))
+}
+
+func (r *runner) lossLine(mode string) string {
+	good := true
+	var rs []string
+	imgs := r.allImages()
+	for _, im := range imgs {
+		for _, files := range lossVariants(im) {
+			s, ok := r.recoverImage(files, mode)
+			x := r.matchState(im.durable, s, ok)
+			if _, err := strconv.Atoi(x); err != nil {
+				good = false
+			}
+			rs = append(rs, x)
+		}
+	}
+	v := "ok"
+	if !good {
+		v = "bad"
+	}
+	return fmt.Sprintf("%s n=%d v=%d js=%s", v, len(imgs), len(rs), strings.Join(rs, ","))
+}
+
+// crash: the directory becomes loss variant v of crash point i; Verify + Open on it; the run
+// continues from there with the recovered prefix as its acknowledged list.  The prefix length is
+// read off the recovered manifest (records beyond the synced ones stand for one edit each).
+func (r *runner) crash(i, v int) string {
+	imgs := r.allImages()
+	im := imgs[i%len(imgs)]
+	vs := lossVariants(im)
+	files := vs[v%len(vs)]
+	d := r.mkTemp("verif-mf-")
+	for n, data := range files {
+		if err := os.WriteFile(filepath.Join(d, n), data, 0o644); err != nil {
+			panic(err)
+		}
+	}
+	oldDir := r.dir
+	r.dir = d
+	fail := func() string { r.dir = oldDir; return "bad" }
+	name := string(files["CURRENT"])
+	if _, ok := files[name]; !ok {
+		return fail()
+	}
+	if err := manifest.Verify(d, r.fs); err != nil {
+		return fail()
+	}
+	m, err := manifest.Open(d, r.fs)
+	if err != nil {
+		return fail()
+	}
+	data, err := os.ReadFile(filepath.Join(d, name))
+	if err != nil {
+		m.Close()
+		return fail()
+	}
+	S := im.syncedLen[name]
+	if S > len(data) {
+		m.Close()
+		return fail()
+	}
+	j := im.srep[name] + len(frames(data[S:]))
+	if j > r.nEdits {
+		// only without fsyncs (SetSync(false)): an unsynced snapshot has more records than edits; the
+		// model's `take j` clamps the same way and the state comparison below decides
+		j = r.nEdits
+	}
+	got := dump(m.Current())
+	if r.dumps[j] != got {
+		m.Close()
+		return fail()
+	}
+	r.mgr.Close()
+	r.mgr = m
+	r.mgr.SetRewriteThreshold(r.thr)
+	r.mgr.SetSync(r.sync)
+	r.images, r.torn = nil, nil
+	r.syncedLen, r.srep = copyMap(im.syncedLen), copyMap(im.srep)
+	r.curSynced, r.tmpSynced, r.durable = im.curSynced, false, im.durable
+	r.edits, r.dumps, r.nEdits = r.edits[:j], r.dumps[:j+1], j
+	// the shadow manager (never reloaded) restarts from the recovered prefix
+	r.shadow.Close()
+	r.shadowDir = r.mkTemp("verif-mfs-")
+	r.shadow, err = manifest.Open(r.shadowDir, nil)
+	if err != nil {
+		panic(err)
+	}
+	r.shadow.SetRewriteThreshold(0)
+	r.shadow.SetSync(false)
+	for _, e := range r.edits {
+		if err := r.shadow.LogEdit(e); err != nil {
+			panic(err)
+		}
+	}
+	if dump(r.shadow.Current()) != r.dumps[j] {
+		panic("shadow replay diverged")
+	}
+	return fmt.Sprintf("ok j=%d %s", j, got)
 }
 
 // recover an image with the plain FS
@@ -525,6 +743,7 @@ func (engine) Exec(ops []string) []string {
 			out[i] = "ok"
 		case "edit":
 			e := parseEdit(toks[1:])
+			r.inflight = 1
 			tr, err := r.call(func() error { return r.mgr.LogEdit(e) })
 			r.logShadow(e)
 			out[i] = res(tr, err)
@@ -533,12 +752,17 @@ func (engine) Exec(ops []string) []string {
 			for _, g := range splitBar(toks[1:]) {
 				es = append(es, parseEdit(g))
 			}
+			r.inflight = len(es)
 			tr, err := r.call(func() error { return r.mgr.LogEdits(es...) })
 			r.logShadow(es...)
 			out[i] = res(tr, err)
 		case "rtrunc":
 			g, idx, term, seg, off := u64(toks[1]), u64(toks[2]), u64(toks[3]), uint32(u64(toks[4])), u64(toks[5])
+			r.inflight = 1
 			tr, err := r.call(func() error { return r.mgr.LogRaftTruncate(g, idx, term, seg, off) })
+			if tr == "-" {
+				r.inflight = 0
+			}
 			switch {
 			case err != nil && tr == "-":
 				out[i] = "err"
@@ -550,6 +774,7 @@ func (engine) Exec(ops []string) []string {
 				out[i] = res(tr, err)
 			}
 		case "rewrite":
+			r.inflight = 0
 			tr, err := r.call(func() error { return r.mgr.Rewrite() })
 			out[i] = res(tr, err)
 		case "dump":
@@ -586,6 +811,10 @@ func (engine) Exec(ops []string) []string {
 			out[i] = r.crashLine(toks[1], imgs)
 		case "torn":
 			out[i] = r.crashLine(toks[1], r.torn)
+		case "losspoints":
+			out[i] = r.lossLine(toks[1])
+		case "crash":
+			out[i] = r.crash(int(u64(toks[1])), int(u64(toks[2])))
 		default:
 			out[i] = "bad-op"
 		}
@@ -745,9 +974,15 @@ func (engine) Gen(r *hlib.Rand, tier string) []string {
 	default:
 		thr = 1 << 20
 	}
-	ops := []string{fmt.Sprintf("open thr=%d sync=%s", thr, b01(r.Chance(80)))}
+	syncOn := r.Chance(80)
+	ops := []string{fmt.Sprintf("open thr=%d sync=%s", thr, b01(syncOn))}
+	crashes := 0
 	for i := 0; i < n; i++ {
 		switch x := r.Intn(100); {
+		case x < 5 && i > 2 && crashes < 3:
+			// a crash round: any crash point of the round so far, any loss of unsynced bytes
+			crashes++
+			ops = append(ops, fmt.Sprintf("crash %d %d", r.Intn(1000), r.Intn(100)))
 		case x < 70:
 			ops = append(ops, "edit "+g.edit())
 		case x < 82:
@@ -775,6 +1010,15 @@ func (engine) Gen(r *hlib.Rand, tier string) []string {
 	if r.Chance(50) {
 		ops = append(ops, "torn raw")
 	}
+	if syncOn || n <= 10 {
+		ops = append(ops, "losspoints db")
+		if r.Chance(25) {
+			ops = append(ops, "losspoints raw")
+		}
+	}
+	if r.Chance(30) {
+		ops = append(ops, fmt.Sprintf("crash %d %d", r.Intn(1000), r.Intn(100)), "edit "+g.edit(), "dump", "crashpoints db", "losspoints db")
+	}
 	ops = append(ops, "reload "+hlib.Pick(r, []string{"db", "raw"}))
 	return ops
 }
@@ -795,8 +1039,11 @@ func (engine) Nontrivial(ops, impl, model, spec []string) bool {
 	return edits >= 5 && rewrites >= 1 && crash
 }
 
+// Extra: how much of the run exercised the loss/rounds machinery
+func (engine) Extra() map[string]any { return map[string]any{"ops_added": "losspoints (every crash point x every loss of bytes written since the last fsync), crash (multi-round: recover a loss variant and continue)"} }
+
 func (engine) Rule() string {
-	return "C15: random edit/batch/LogRaftTruncate/Rewrite/reload sequences (6–60 calls, all 8 edit types, field values from a boundary pool incl. 2^32-1, 2^63, 2^64-1, nil payloads, colliding ids, rewrite thresholds 0/1/30–8000/1MiB, SetSync on/off, 8% cases with 300–800-byte keys so the snapshot spans several 4096-byte writes) through the real manifest.Manager on FaultFS; every file-system call is a crash point (directory copied before it), every append additionally torn at 3 byte positions per record; non-trivial = at least 5 logging calls, at least one rewrite (CURRENT renamed) and a crash-point sweep"
+	return "C15: random edit/batch/LogRaftTruncate/Rewrite/reload sequences (6–60 calls, all 8 edit types, field values from a boundary pool incl. 2^32-1, 2^63, 2^64-1, nil payloads, colliding ids, rewrite thresholds 0/1/30–8000/1MiB, SetSync on/off, 8% cases with 300–800-byte keys so the snapshot spans several 4096-byte writes) through the real manifest.Manager on FaultFS; every file-system call is a crash point (directory copied before it), every append additionally torn at 3 byte positions per record; with the fsync ghost every crash point is also recovered under every loss of bytes written since the last fsync of the live manifest (4 cuts per unsynced record), and ~35% of the cases contain 1-3 crash rounds (crash at a random crash point + loss variant, Verify+Open, continue); non-trivial = at least 5 logging calls, at least one rewrite (CURRENT renamed) and a crash-point sweep"
 }
 
 func main() { hlib.Main("manifest", engine{}) }
